@@ -3,9 +3,11 @@
 
 use crate::rng::Rng;
 
-pub const WORD_ATOMS: [&str; 23] = [
+pub const WORD_ATOMS: [&str; 30] = [
     "\u{fffd}", "a", "b", "ab", "foo", "bar", "é", "日本", "x1", "e\u{301}", "👨\u{200d}👩\u{200d}👧", "🇩🇪", "\0", "\u{18}", ".", ",", "-", "\u{200b}", "\u{180e}",
     "\u{feff}", "\u{1c}", "\u{1f}", "ß",
+    // grapheme clusters of more than four bytes that share their first four bytes with another cluster
+    "🇩🇰", "👍🏻", "👍🏿", "e\u{301}\u{302}", "e\u{301}\u{303}", "👨\u{200d}👩\u{200d}👦", "क्ष",
 ];
 
 /// every char with the Unicode White_Space property except CR / LF (those are line terminators)
